@@ -359,6 +359,34 @@ def case_c20(acc, text, indents, with_comments=False):
                         w, 'output %r: %s' % (P, detail))
 
 
+def case_c20_helper(acc, text, ind, style):
+    """the `pretty_print` attribute of the package-level `es5` helper,
+    applied to source text, indentation string by keyword or by position"""
+    from calmjs.parse import es5 as helper
+    acc.cases += 1
+    try:
+        if style == 'keyword':
+            P = helper.pretty_print(text, indent_str=ind)
+        else:
+            P = helper.pretty_print(text, ind)
+    except Exception as e:
+        acc.out['helper-raises:' + type(e).__name__] += 1
+        return
+    ref = R2.parse(P)
+    if ref.verdict != 'accept':
+        acc.out['output-not-readable-by-reference (C01 reports it)'] += 1
+        return
+    acc.traces += 1
+    if '{' in P:
+        acc.nontrivial += 1
+    acc.out['judged-through-helper'] += 1
+    w = {'text': text, 'indent': ind, 'helper': style}
+    for sp, detail in check_indentation(P, ind, ref):
+        acc.bag.add('C20|helper-%s|%s|indent=%s' % (
+            style, sp, INDENT_NAME.get(ind, '?')), w,
+            'output %r: %s' % (P, detail))
+
+
 def case_c20_reuse(acc, text1, cut, text2, ind):
     """one printer OBJECT: a print of text1 abandoned after `cut` fragments,
     then a complete print of text2, whose indentation is judged"""
